@@ -114,6 +114,11 @@ def targeted(rng, cfg, tier_thorough):
     out.append(attack_scenario(rng, cfg, [(False, "connect:valid", d.base_connect(rng, serializer="serpent"), "reset")] * 4))
     out.append(attack_scenario(rng, cfg, [(True, "invoke:raises", d.base_invoke(rng, "raise_", (n,), serializer="serpent"), a)
                                           for n in ("BadStr", "Unser", "SecOS") for a in ("read", "reset")]))
+    # exceptions that cannot be printed (eagerly formatting log lines in handlers): serialisable ones from a @callback method,
+    # communication-error subclasses from any method, from the validator
+    out.append(attack_scenario(rng, cfg, [(True, "invoke:raises", d.base_invoke(rng, m, (n,), serializer="serpent"), "read")
+                                          for m, n in (("raise_", "BadStrProto"), ("cb", "BadStrOnly"), ("raise_", "BadStrTimeout"), ("cb", "BadStrProto"))]
+                               + [(False, "connect:validator-raises", d.base_connect(rng, handshake={"raise": "BadStrOnly"}, serializer="serpent"), "read")]))
     for phase in ("pre", "post"):
         base = d.base_connect(rng, serializer="serpent") if phase == "pre" else d.base_invoke(rng, serializer="serpent")
         hs = phase == "post"
@@ -160,6 +165,30 @@ def handover_scenarios(rng, cfg):
               [["send", 0, d.base_connect(rng, serializer="serpent").hex(), "connect:valid"], ["read", 0], ["reset", 0]]]
     for e in enders:
         out.append({"cfg": cfg, "steps": [["arm"], ["open", 0]] + e + [["fresh", "handover-connection-dropped"], ["wcall", rng.randrange(1000)]]})
+    return out
+
+
+def same_round_scenarios(rng, cfg):
+    """while the witness keeps the serving thread busy (multiplex: the loop itself) one or two clients go away and new ones
+    connect, so that the server sees the disconnects and the new connections in ONE select round (descriptor numbers are
+    reused at once); the new clients must be served"""
+    from tools.lib import c05drv as d
+    conn = d.base_connect(rng, serializer="serpent").hex()
+    out = []
+    for nold, end in ((1, "close"), (1, "reset"), (2, "close")):
+        steps = []
+        for k in range(nold):
+            steps += [["open", k], ["send", k, conn, "connect:valid"], ["read", k]]
+        steps.append(["wslow", rng.randrange(1000)])
+        for k in range(nold):
+            steps.append([end, k])
+        for k in range(nold):
+            steps += [["open_now", 10 + k], ["send", 10 + k, conn, "connect:valid"]]
+        steps.append(["wrecv"])
+        for k in range(nold):
+            steps += [["read", 10 + k], ["send", 10 + k, d.rd.ping_msg(seq=3).hex(), "ping"], ["read", 10 + k]]
+        steps.append(["wcall", rng.randrange(1000)])
+        out.append({"cfg": cfg, "steps": steps})
     return out
 
 
@@ -223,6 +252,8 @@ def make_scenarios(ctx, n_random):
         scs += targeted(rng, cfg, not ctx.quick)
         if cfg["server"] == "thread" and cfg["pool"] > 1:
             scs += handover_scenarios(rng, cfg)
+        if cfg["pool"] >= 4:
+            scs += same_round_scenarios(rng, cfg)
     per = max(1, n_random // len(CONFIGS))
     for cfg in CONFIGS:
         for _ in range(per):
